@@ -253,7 +253,9 @@ def check_nonfinite(ctx, S):
     if S.acc is not None:
         cands = [A.unparse(S.acc_expr)] + ([S.gname] if S.gname else [])
         for c in cands:
-            g = g or A.find_raising_guard(S.fn, A.nnf_of_src("len(%s) == 0" % c))
+            # the accepted index is a 1-D array: len(G), G.size and G.shape[0] are the same number
+            for spec in ("len(%s) == 0", "%s.size == 0", "%s.shape[0] == 0", "not len(%s)", "not %s.size", "len(%s) < 1", "%s.size < 1"):
+                g = g or A.find_raising_guard(S.fn, A.nnf_of_src(spec % c))
     ctx.check(R, g or S.fn, "%s: an empty accepted set raises" % S.name, g is not None, "no raise when the accepted index is empty", key=S.name + ":nogood")
     loop = find_loop(S)
     if isinstance(loop, ast.For):
